@@ -268,8 +268,10 @@ def run(item):
         from checks import c08
         if item['which'] == 'kmu':
             rp(lambda: c08.body_kmu(item['n1d'], 1, False, (0, 2), True, 2, False))
+            rp(lambda: c08.body_kmu(item['n1d'], 1, False, (0, 2), True, 2, False, ambient=1))     # fewer threads left in force by an earlier call
         else:
             rp(lambda: c08.body_kppi(item['n1d'], 1, 2, True, 2, False))
+            rp(lambda: c08.body_kppi(item['n1d'], 1, 2, True, 2, False, ambient=1))
     elif fam == 'hod':
         from checks import c10
         rp(lambda: c10.body(item['H'], item['P'], ('LRG', 'ELG'), item['nt']))
